@@ -9,13 +9,60 @@ from .. import campaign as C
 from ..driver import analysis_check, standard_items
 
 
+def pipeline_part(ctx):
+    """spec/Pipeline.tla: the contracts of the passes compose (model mode, every fact set), and the structural
+    facts observed after every pass of every analysis are steps of that machine (trace mode).  The contracts are
+    design knowledge about the pipeline, not one of the listed properties: a mismatch is reported in the evidence
+    (and printed), it is not a VIOLATION of C02."""
+    from .. import tlc
+    run = ctx["run"]
+    out = {"pipeline_model_states": 0, "pipeline_traces": 0, "pipeline_contract_mismatches": 0, "pipeline_mismatch_examples": []}
+    ok, gen, distinct, _, tail = tlc.run_spec("Pipeline", {"mode": "model", "traces": []}, workers=4)
+    if not ok:
+        run.error("TLC Pipeline (model): " + tail)
+    out["pipeline_model_states"] = distinct
+    traces, texts = [], {}
+    settings = dict(ctx.get("variants") or [])
+    for suffix, results in ctx["results"].items():
+        st = settings.get(suffix, {})
+        for it in ctx["items"]:
+            r = results.get(it["id"]) or {}
+            if "feat0" not in r or not r.get("passes"):
+                continue
+            steps = [{"pass": sn["pass"], "feat": sn["feat"]} for sn in r["passes"] if "feat" in sn]
+            if len(steps) != len(r["passes"]):
+                continue
+            tid = f"pl{len(traces)}"
+            texts[tid] = (it["id"], suffix, it.get("text"))
+            traces.append({"id": tid, "f0": r["feat0"], "steps": steps, "completed": r.get("stage") not in ("parse", "normalize", "timeout", "crash"),
+                           "c2a": bool(st.get("cond2arithm")), "noinfer": bool(st.get("disable_type_inference"))})
+    if traces:
+        ok, gen, distinct, verdicts, tail = tlc.run_spec("Pipeline", {"mode": "trace", "traces": traces}, workers=4)
+        if not ok:
+            run.error("TLC Pipeline (trace): " + tail)
+        for t in traces:
+            v = verdicts.get(t["id"])
+            if v is None:
+                if ok:
+                    run.error(f"pipeline trace {t['id']}: no verdict")
+                continue
+            out["pipeline_traces"] += 1
+            if v["fails"]:
+                out["pipeline_contract_mismatches"] += 1
+                if len(out["pipeline_mismatch_examples"]) < 5:
+                    out["pipeline_mismatch_examples"].append({"item": texts[t["id"]][0], "variant": texts[t["id"]][1],
+                                                              "fails": v["fails"], "trace": t})
+                print(f"NOTE pipeline contract mismatch (not a C02 violation): {texts[t['id']][0]}{texts[t['id']][1]} {v['fails'][:2]}")
+    return out
+
+
 def main(tier, seed):
-    items = standard_items(seed, tier, 14, 300, bench_quick=5, corpus_quick=14)
+    items = standard_items(seed, tier, 14, 300, bench_quick=5, corpus_quick=14, ps_quick=12, ps_thorough=220)
     variants = [("", {}), ("-c2a", {"cond2arithm": True}), ("-tc", {"transform_categoricals": True})]
     if tier != "quick":
         variants.append(("-c2a-tc", {"cond2arithm": True, "transform_categoricals": True}))
     return analysis_check("C02", tier, seed, items=items, want=["parsed", "passes"], variants=variants,
-                          builders=[C.b_source, C.b_passes], N=4 if tier == "quick" else 6,
+                          builders=[C.b_source, C.b_passes], N=4 if tier == "quick" else 6, post=pipeline_part,
                           assumptions=["passes whose output contains an abstracted probability symbol (_probN) are not compared",
                                        "trivial_guard is excluded (changes the meaning by design)"])
 
